@@ -310,6 +310,140 @@ func fileText(items []*item, idx []int) string {
 	return lang.Print(&lang.Program{Items: its}, lang.Canonical{})
 }
 
+// transformed applies a random history transformation to the program made of items: unreferenced items
+// are deleted, independent items reordered, unrelated items (extra) inserted, the sequence cut into
+// files. It returns the variant run, the description of what was done and the set of kept items.
+func transformed(rt *rapid.T, items []*item, extra []*item, moved int) (Run, []string, map[int]bool) {
+	n := len(items)
+	var transform []string
+	order := seqInts(n)
+	kept := map[int]bool{}
+	for i := range order {
+		kept[i] = true
+	}
+	// (1) delete unreferenced items
+	if rapid.Bool().Draw(rt, "delete") {
+		for i := n - 1; i >= 0; i-- {
+			referenced := false
+			for j := range kept {
+				if kept[j] && items[j].refs[i] {
+					referenced = true
+				}
+			}
+			if !referenced && rapid.IntRange(0, 2).Draw(rt, "drop") == 0 {
+				delete(kept, i)
+			}
+		}
+		if len(kept) < n {
+			transform = append(transform, fmt.Sprintf("delete %d unreferenced item(s)", n-len(kept)))
+		}
+	}
+	// (2) a different topological order
+	var seqOrder []int
+	if rapid.Bool().Draw(rt, "reorder") {
+		placed := map[int]bool{}
+		for len(seqOrder) < len(kept) {
+			var ready []int
+			for i := 0; i < n; i++ {
+				if !kept[i] || placed[i] {
+					continue
+				}
+				ok := true
+				for j := range items[i].order {
+					if kept[j] && !placed[j] {
+						ok = false
+					}
+				}
+				if ok {
+					ready = append(ready, i)
+				}
+			}
+			k := ready[rapid.IntRange(0, len(ready)-1).Draw(rt, "next")]
+			placed[k] = true
+			seqOrder = append(seqOrder, k)
+		}
+		if !sort.IntsAreSorted(seqOrder) {
+			transform = append(transform, "reorder independent items")
+		}
+	} else {
+		for i := 0; i < n; i++ {
+			if kept[i] {
+				seqOrder = append(seqOrder, i)
+			}
+		}
+	}
+	// (3) insert unrelated items: merge the extra sequence (kept in its own order) at random places
+	type ref struct {
+		extra bool
+		i     int
+	}
+	var merged []ref
+	for _, i := range seqOrder {
+		merged = append(merged, ref{false, i})
+	}
+	if rapid.Bool().Draw(rt, "insert") {
+		pos := 0
+		for xi := range extra {
+			pos = rapid.IntRange(pos, len(merged)).Draw(rt, "insertAt")
+			merged = append(merged[:pos], append([]ref{{true, xi}}, merged[pos:]...)...)
+			pos++
+		}
+		transform = append(transform, fmt.Sprintf("insert %d unrelated item(s)", len(extra)))
+	}
+	// (4) cut into files in different directories
+	nfiles := 1
+	if rapid.Bool().Draw(rt, "split") && len(merged) >= 2 {
+		nfiles = rapid.IntRange(2, min(4, len(merged))).Draw(rt, "nfiles")
+	}
+	cuts := []int{0}
+	for f := 1; f < nfiles; f++ {
+		lo := cuts[len(cuts)-1] + 1
+		hi := len(merged) - (nfiles - f)
+		if lo > hi {
+			break
+		}
+		cuts = append(cuts, rapid.IntRange(lo, hi).Draw(rt, "cut"))
+	}
+	cuts = append(cuts, len(merged))
+	variant := Run{}
+	dirs := []string{"", "a", "b/c", "d"}
+	for f := 0; f+1 < len(cuts); f++ {
+		var its []*lang.TopItem
+		onlyDecls := true
+		for _, r := range merged[cuts[f]:cuts[f+1]] {
+			var it *lang.TopItem
+			if r.extra {
+				it = extra[r.i].it
+			} else {
+				it = items[r.i].it
+			}
+			if it.Types == nil {
+				onlyDecls = false
+			}
+			its = append(its, it)
+		}
+		name := fmt.Sprintf("part%d.fo", f)
+		if len(cuts) == 2 {
+			name = "prog.fo"
+		}
+		if onlyDecls && len(cuts) > 2 && rapid.Bool().Draw(rt, "asFoi") {
+			name = fmt.Sprintf("decls%d.foi", f)
+			transform = append(transform, "declarations moved into a .foi file")
+		}
+		variant.Files = append(variant.Files, File{Path: filepath.Join(dirs[f%len(dirs)], name), Content: lang.Print(&lang.Program{Items: its}, lang.Canonical{})})
+	}
+	if len(cuts) > 2 {
+		transform = append(transform, fmt.Sprintf("split into %d files in different directories", len(cuts)-1))
+	}
+	if len(transform) == 0 {
+		transform = []string{"identity"}
+	}
+	if moved > 0 {
+		transform = append(transform, "base program declares a record with the same field names as an earlier one after functions that use such literals")
+	}
+	return variant, transform, kept
+}
+
 func TestHistories(t *testing.T) {
 	e := vt.Get()
 	defer e.Flush()
@@ -335,132 +469,7 @@ func TestHistories(t *testing.T) {
 		p2 := g2.GenProgramNoMain()
 		extra := analyse(p2.Items)
 
-		var transform []string
-		order := seqInts(n)
-		kept := map[int]bool{}
-		for i := range order {
-			kept[i] = true
-		}
-		// (1) delete unreferenced items
-		if rapid.Bool().Draw(rt, "delete") {
-			for i := n - 1; i >= 0; i-- {
-				referenced := false
-				for j := range kept {
-					if kept[j] && items[j].refs[i] {
-						referenced = true
-					}
-				}
-				if !referenced && rapid.IntRange(0, 2).Draw(rt, "drop") == 0 {
-					delete(kept, i)
-				}
-			}
-			if len(kept) < n {
-				transform = append(transform, fmt.Sprintf("delete %d unreferenced item(s)", n-len(kept)))
-			}
-		}
-		// (2) a different topological order
-		var seqOrder []int
-		if rapid.Bool().Draw(rt, "reorder") {
-			placed := map[int]bool{}
-			for len(seqOrder) < len(kept) {
-				var ready []int
-				for i := 0; i < n; i++ {
-					if !kept[i] || placed[i] {
-						continue
-					}
-					ok := true
-					for j := range items[i].order {
-						if kept[j] && !placed[j] {
-							ok = false
-						}
-					}
-					if ok {
-						ready = append(ready, i)
-					}
-				}
-				k := ready[rapid.IntRange(0, len(ready)-1).Draw(rt, "next")]
-				placed[k] = true
-				seqOrder = append(seqOrder, k)
-			}
-			if !sort.IntsAreSorted(seqOrder) {
-				transform = append(transform, "reorder independent items")
-			}
-		} else {
-			for i := 0; i < n; i++ {
-				if kept[i] {
-					seqOrder = append(seqOrder, i)
-				}
-			}
-		}
-		// (3) insert unrelated items: merge the extra sequence (kept in its own order) at random places
-		type ref struct {
-			extra bool
-			i     int
-		}
-		var merged []ref
-		for _, i := range seqOrder {
-			merged = append(merged, ref{false, i})
-		}
-		if rapid.Bool().Draw(rt, "insert") {
-			pos := 0
-			for xi := range extra {
-				pos = rapid.IntRange(pos, len(merged)).Draw(rt, "insertAt")
-				merged = append(merged[:pos], append([]ref{{true, xi}}, merged[pos:]...)...)
-				pos++
-			}
-			transform = append(transform, fmt.Sprintf("insert %d unrelated item(s)", len(extra)))
-		}
-		// (4) cut into files in different directories
-		nfiles := 1
-		if rapid.Bool().Draw(rt, "split") && len(merged) >= 2 {
-			nfiles = rapid.IntRange(2, min(4, len(merged))).Draw(rt, "nfiles")
-		}
-		cuts := []int{0}
-		for f := 1; f < nfiles; f++ {
-			lo := cuts[len(cuts)-1] + 1
-			hi := len(merged) - (nfiles - f)
-			if lo > hi {
-				break
-			}
-			cuts = append(cuts, rapid.IntRange(lo, hi).Draw(rt, "cut"))
-		}
-		cuts = append(cuts, len(merged))
-		variant := Run{}
-		dirs := []string{"", "a", "b/c", "d"}
-		for f := 0; f+1 < len(cuts); f++ {
-			var its []*lang.TopItem
-			onlyDecls := true
-			for _, r := range merged[cuts[f]:cuts[f+1]] {
-				var it *lang.TopItem
-				if r.extra {
-					it = extra[r.i].it
-				} else {
-					it = items[r.i].it
-				}
-				if it.Types == nil {
-					onlyDecls = false
-				}
-				its = append(its, it)
-			}
-			name := fmt.Sprintf("part%d.fo", f)
-			if len(cuts) == 2 {
-				name = "prog.fo"
-			}
-			if onlyDecls && len(cuts) > 2 && rapid.Bool().Draw(rt, "asFoi") {
-				name = fmt.Sprintf("decls%d.foi", f)
-				transform = append(transform, "declarations moved into a .foi file")
-			}
-			variant.Files = append(variant.Files, File{Path: filepath.Join(dirs[f%len(dirs)], name), Content: lang.Print(&lang.Program{Items: its}, lang.Canonical{})})
-		}
-		if len(cuts) > 2 {
-			transform = append(transform, fmt.Sprintf("split into %d files in different directories", len(cuts)-1))
-		}
-		if len(transform) == 0 {
-			transform = []string{"identity"}
-		}
-		if moved > 0 {
-			transform = append(transform, "base program declares a record with the same field names as an earlier one after functions that use such literals")
-		}
+		variant, transform, kept := transformed(rt, items, extra, moved)
 		c := Case{Base: base, Variant: variant, Transform: transform}
 		// non-trivial: some kept function with a match or a generic instantiation has a changed prefix
 		nt := false
@@ -547,5 +556,181 @@ func TestReplay(t *testing.T) {
 	e := vt.Get()
 	e.RunReplay(t, map[string]func(json.RawMessage) error{
 		"history": vt.Handler(check),
+	})
+}
+
+// --- records that share their field names: the long-lived lookup state, on purpose ---------------------
+// Every program here has two or three records per field-name set, declared at random places among
+// functions that build such records with unqualified literals, read their fields, or name one of the
+// records. Which record an unqualified literal denotes may depend on the records declared before it
+// (the ones it can see) and on nothing else: not on other functions before it, not on files.
+
+var sharedSets = [][]lang.Field{
+	{{Name: "Xa", T: lang.TInt}, {Name: "Xb", T: lang.TString}},
+	{{Name: "Ya", T: lang.TString}},
+	{{Name: "Za", T: lang.TInt}, {Name: "Zb", T: lang.TInt}, {Name: "Zc", T: lang.TBool}},
+}
+
+var sharedNames = []string{"Aa", "Bq", "Kk", "Mm", "Pre", "Rec", "Zz", "Tw"}
+
+func genSharedState(rt *rapid.T) ([]*lang.TopItem, []string) {
+	labels := map[string]bool{}
+	var items []*lang.TopItem
+	nsets := rapid.IntRange(1, 2).Draw(rt, "nsets")
+	first := rapid.IntRange(0, len(sharedSets)-1).Draw(rt, "firstSet")
+	fn := 0
+	type recInfo struct {
+		name string
+		set  int
+	}
+	lit := func(set int, rec string, qualified bool) *lang.Expr {
+		fs := sharedSets[set]
+		e := &lang.Expr{K: "reclit", Name: rec, T: lang.TRec(rec), Qualified: qualified}
+		idx := rapid.Permutation(seqInts(len(fs))).Draw(rt, "fieldOrder")
+		if !sort.IntsAreSorted(idx) {
+			labels["literal with permuted fields"] = true
+		}
+		for _, i := range idx {
+			var v *lang.Expr
+			switch fs[i].T.K {
+			case "int":
+				v = lang.Int(int64(rapid.IntRange(0, 9).Draw(rt, "iv")))
+			case "string":
+				v = lang.Str(rapid.SampledFrom([]string{"s", "", "q r"}).Draw(rt, "sv"))
+			default:
+				v = lang.Bool(rapid.Bool().Draw(rt, "bv"))
+			}
+			e.Fields = append(e.Fields, lang.FieldInit{Name: fs[i].Name, E: v})
+		}
+		return e
+	}
+	// the sequence: per set, records and functions interleaved; the sets' sequences are merged afterwards
+	var seqs [][]*lang.TopItem
+	usedNames := map[string]bool{}
+	for s := 0; s < nsets; s++ {
+		set := (first + s) % len(sharedSets)
+		nrec := rapid.IntRange(2, 3).Draw(rt, "nrec")
+		var recs []recInfo
+		var seq []*lang.TopItem
+		for len(recs) < nrec {
+			nm := rapid.SampledFrom(sharedNames).Draw(rt, "recName")
+			if s > 0 {
+				nm += "2"
+			}
+			if usedNames[nm] {
+				continue
+			}
+			usedNames[nm] = true
+			recs = append(recs, recInfo{nm, set})
+		}
+		declared := 0
+		declare := func() {
+			r := recs[declared]
+			declared++
+			seq = append(seq, &lang.TopItem{Types: []*lang.TypeDecl{{Rec: &lang.RecDecl{Name: r.name, Fields: sharedSets[set]}}}, Label: "rec " + r.name})
+			if declared > 1 {
+				prevMin := recs[0].name
+				for _, p := range recs[:declared-1] {
+					if p.name < prevMin {
+						prevMin = p.name
+					}
+				}
+				if r.name < prevMin {
+					labels["a record that sorts before its twins is declared after them"] = true
+				}
+			}
+		}
+		declare()
+		nfun := rapid.IntRange(2, 5).Draw(rt, "nfun")
+		for k := 0; k < nfun || declared < nrec; {
+			if declared < nrec && (k >= nfun || rapid.IntRange(0, 2).Draw(rt, "declNow") == 0) {
+				declare()
+				continue
+			}
+			k++
+			fn++
+			f := &lang.FuncDecl{Name: fmt.Sprintf("fn%d", fn)}
+			fs := sharedSets[set]
+			fld := fs[rapid.IntRange(0, len(fs)-1).Draw(rt, "fld")]
+			switch rapid.IntRange(0, 4).Draw(rt, "shape") {
+			case 0: // returns an unqualified literal
+				f.Ret = lang.TRec("?")
+				f.Body = lang.Blk(lit(set, "?", false))
+				labels["function returning an unqualified literal"] = true
+			case 1: // builds one, reads a field
+				f.Ret = fld.T
+				f.Body = lang.Blk(&lang.Expr{K: "field", Name: fld.Name, T: fld.T, Args: []*lang.Expr{lang.Var("r", lang.TRec("?"))}}, lang.Let("r", lit(set, "?", false)))
+				labels["literal bound and a field read"] = true
+			case 2: // parameter annotated with one of the records declared so far
+				r := recs[rapid.IntRange(0, declared-1).Draw(rt, "annotRec")]
+				f.Params = []lang.Param{{Name: "r", T: lang.TRec(r.name), Annot: true}}
+				f.Ret = fld.T
+				f.Body = lang.Blk(&lang.Expr{K: "field", Name: fld.Name, T: fld.T, Args: []*lang.Expr{lang.Var("r", lang.TRec(r.name))}})
+				labels["field read through an annotated parameter"] = true
+			case 3: // qualified literal of one of the records declared so far
+				r := recs[rapid.IntRange(0, declared-1).Draw(rt, "qualRec")]
+				f.Ret = lang.TRec(r.name)
+				f.Body = lang.Blk(lit(set, r.name, true))
+				labels["qualified literal"] = true
+			default: // two literals in one function
+				f.Ret = lang.TBool
+				f.Body = lang.Blk(lang.Bin("=", lang.TBool, lang.Var("a", lang.TRec("?")), lang.Var("b", lang.TRec("?"))),
+					lang.Let("a", lit(set, "?", false)), lang.Let("b", lit(set, "?", false)))
+				labels["two literals compared"] = true
+			}
+			seq = append(seq, &lang.TopItem{Func: f, Label: f.Name})
+		}
+		seqs = append(seqs, seq)
+	}
+	// merge the per-set sequences, each keeping its own order
+	pos := make([]int, len(seqs))
+	for {
+		var live []int
+		for i := range seqs {
+			if pos[i] < len(seqs[i]) {
+				live = append(live, i)
+			}
+		}
+		if len(live) == 0 {
+			break
+		}
+		i := live[rapid.IntRange(0, len(live)-1).Draw(rt, "mergeFrom")]
+		items = append(items, seqs[i][pos[i]])
+		pos[i]++
+	}
+	items = append(items, &lang.TopItem{Func: &lang.FuncDecl{Name: "main", Ret: lang.TUnit, Body: lang.Blk(lang.Call("frt.Println", lang.TUnit, lang.Str("done")))}, Label: "main"})
+	var ls []string
+	for l := range labels {
+		ls = append(ls, l)
+	}
+	sort.Strings(ls)
+	return items, ls
+}
+
+func TestSharedFieldRecords(t *testing.T) {
+	e := vt.Get()
+	defer e.Flush()
+	if e.FC == "" {
+		t.Skip("needs the orchestrator (VERIF_FC)")
+	}
+	rapid.Check(t, func(rt *rapid.T) {
+		its, labels := genSharedState(rt)
+		items := analyse(its)
+		base := Run{Files: []File{{Path: "prog.fo", Content: fileText(items, seqInts(len(items)))}}}
+		px := lang.Full
+		px.MaxUnits, px.Probes, px.Generics = 2, false, false
+		g2 := lang.NewGen(rt, px)
+		g2.SetNameOffset(5000)
+		extra := analyse(g2.GenProgramNoMain().Items)
+		variant, transform, _ := transformed(rt, items, extra, 0)
+		c := Case{Base: base, Variant: variant, Transform: transform}
+		nt := transform[0] != "identity"
+		for _, tr := range transform {
+			labels = append(labels, "transform: "+strings.TrimLeft(regexp.MustCompile(`[0-9]+ `).ReplaceAllString(tr, ""), " "))
+		}
+		e.Record("TestSharedFieldRecords", vt.HashJSON(c), nt, labels, func() any {
+			return map[string]any{"transform": transform, "base": base.Files[0].Content}
+		})
+		e.Check(rt, "history", c, func() error { return check(c) })
 	})
 }
